@@ -49,6 +49,21 @@ theorem header_slices_never_pooled (progs : Nat → List Instr) (hwf : ∀ t, wf
   simp only [accessOk, hp, Instr.handles, List.all_cons, List.all_nil, Bool.and_true, beq_iff_eq] at ha
   exact ⟨ha, fun e => by rw [e] at ha; cases ha⟩
 
+/-- executable schedules produce reachable states (the driver's `runSched` is covered) -/
+theorem runSched_reach (progs : Nat → List Instr) {s : State} (h : Reach progs s) (sched : List (Nat × Option Nat)) :
+    Reach progs (runSched s sched) := by
+  induction sched generalizing s with
+  | nil => exact h
+  | cons x rest ih =>
+    obtain ⟨t, c⟩ := x
+    simp only [runSched]
+    cases hs : step s t c with
+    | none => exact ih h
+    | some s' => exact ih (Reach.step t c h hs)
+
+theorem runSched_reach' (progs : Nat → List Instr) (sched : List (Nat × Option Nat)) :
+    Reach progs (runSched (init progs) sched) := runSched_reach progs Reach.init sched
+
 /-- **Independence.** Whatever the other pipelines do and whatever the pool hands out, the part
 of `t`'s program executed so far has observed exactly what it observes when run alone. -/
 theorem pipelines_independent (progs : Nat → List Instr) (hwf : ∀ t, wf (progs t) = true) {s : State}
@@ -56,6 +71,18 @@ theorem pipelines_independent (progs : Nat → List Instr) (hwf : ∀ t, wf (pro
     ∃ done, progs t = done ++ (s.thr t).prog ∧ (s.thr t).log = soloLog done := by
   obtain ⟨done, hd, S⟩ := sim_reach hwf h t
   exact ⟨done, hd, S.log⟩
+
+/-- non-vacuity of the hypotheses of `ownership_inv` / `pipelines_independent`: a system of two
+real Decrypt pipelines is `wf`, and a state in which both have finished after sharing one pooled
+buffer is reachable (see also the evaluated `example` next to `alias_witness`) -/
+example : (∀ t, wf (witnessProgs retFixed t) = true) ∧ Reach (witnessProgs retFixed) (witnessFinal retFixed) ∧
+    (progOf retFixed docA).length = 41 := by
+  refine ⟨?_, runSched_reach' _ _, by decide +kernel⟩
+  intro t
+  match t with
+  | 0 => exact decrypt_fixed_wf segmentSize [docA] (bodyOf 0 docA)
+  | 1 => exact decrypt_fixed_wf segmentSize [docB] (bodyOf 0 docB)
+  | _ + 2 => rfl
 
 /-- a finished pipeline has the result of its run alone -/
 theorem pipelines_independent_final (progs : Nat → List Instr) (hwf : ∀ t, wf (progs t) = true) {s : State}
@@ -70,18 +97,6 @@ theorem pipelines_independent_of_others (progs progs' : Nat → List Instr)
     {s s' : State} (h : Reach progs s) (h' : Reach progs' s')
     (hfin : (s.thr t).prog = []) (hfin' : (s'.thr t).prog = []) : (s.thr t).log = (s'.thr t).log := by
   rw [pipelines_independent_final progs hwf h t hfin, pipelines_independent_final progs' hwf' h' t hfin', he]
-
-/-- executable schedules produce reachable states (the driver's `runSched` is covered) -/
-theorem runSched_reach (progs : Nat → List Instr) {s : State} (h : Reach progs s) (sched : List (Nat × Option Nat)) :
-    Reach progs (runSched s sched) := by
-  induction sched generalizing s with
-  | nil => exact h
-  | cons x rest ih =>
-    obtain ⟨t, c⟩ := x
-    simp only [runSched]
-    cases hs : step s t c with
-    | none => exact ih h
-    | some s' => exact ih (Reach.step t c h hs)
 
 /-! ## the enc pipelines -/
 
@@ -260,6 +275,10 @@ theorem bsp_recycled_equals_fresh (p : PSlice) (size : Nat) :
   have hz : Kit.Generated.C08.bspZeroTo = .cap := by decide
   rw [hz]
   simp [bspGet, bspFresh, bspResize, PSlice.elems]
+
+/-- non-vacuity: a dirty recycled slice put back with length 1 -/
+example : (bspResize (bspGet .cap ⟨[238, 238, 238, 238], 1⟩) 3).elems = [0, 0, 0] ∧
+    (bspResize (bspGet .cap ⟨[238, 238, 238, 238], 1⟩) 9).elems.length = 9 := by decide
 
 /-- the code as found (`Get` clearing only `[0:len)`): caller 1 leaves 0xEE in a 4-cell slice and
 puts `bs[:0]`; caller 2's `Get` + `Resize(bs, 2)` returns caller 1's bytes, a fresh slice zeros -/
